@@ -234,7 +234,15 @@ def compare_model(ctx, jm, m_in, m_out):
   return diffs
 
 
-PRELUDE = '''From VF Require Import Base.Prelude Gen.Enums Model.Graph Model.Insts Model.Perform Spec.WFb Spec.Interleave.
+WHY = {0: 'all hold', 1: 'no such list', 2: 'ids / subgraph out of range', 3: 'last is not an insertion',
+       4: 'consumer id < -1', 5: 'instructions of the list name different tensors',
+       6: 'an earlier list of the subgraph names the tensor',
+       7: 'list holds a NO_QUANTIZE instruction (float reader beside quantized readers)',
+       8: 'list holds an instruction that is neither in place nor an insertion',
+       9: 'an earlier insertion overlaps the last consumer list partially',
+       10: 'an insertion disjoint from the last list is followed by an enclosing one that overlaps it'}
+
+PRELUDE = '''From VF Require Import Base.Prelude Gen.Enums Model.Graph Model.Insts Model.Perform Spec.WFb Spec.Interleave Spec.LastOk.
 Open Scope Z_scope.
 Definition run_case (c : model * list ttp) : list Z :=
   let r1 := insts_of_params (fst c) (snd c) in
@@ -278,8 +286,23 @@ Definition run_case (c : model * list ttp) : list Z :=
                 | Ok tis => forallb (fun kg => plan_okb (Z.to_nat (fst kg)) (snd kg) tis)
                                     (enumerate (m_subgraphs (fst c)))
                 | Err _ => false end in
+  (* hypotheses of the whole-run C03 theorem on the last instruction of a list
+     (last_hypb, sound: Proofs/LastOkSound.v): how many generated lists end
+     with an inserted QUANTIZE / DEQUANTIZE, and how many of those meet them *)
+  let lastn := match r1 with
+               | Ok tis => Z.of_nat (length (filter last_is_insertion tis))
+               | Err _ => 0 end in
+  let lastok := match r1 with
+                | Ok tis => Z.of_nat (length (filter (fun nt => last_is_insertion (snd nt)
+                                                       && last_hypb (fst c) tis (Z.to_nat (fst nt)))
+                                                     (enumerate tis)))
+                | Err _ => 0 end in
   flat (JL [Jres (Jlist J_tinsts) r1; Jres J_model r2; JB hyp; JB concl; JB wo; JB (negb wo || sem);
-            JB (wo && planok)]).
+            JB (wo && planok); JZ lastn; JZ lastok;
+            JL (match r1 with
+                | Ok tis => map (fun nt => JZ (last_why (fst c) tis (Z.to_nat (fst nt))))
+                                (filter (fun nt => last_is_insertion (snd nt)) (enumerate tis))
+                | Err _ => [] end)]).
 '''
 
 
@@ -532,11 +555,18 @@ def main():
   hyp_checked = 0
   float_runs = 0
   plan_runs = 0
+  last_lists = 0
+  last_ok = 0
+  last_why = collections.Counter()
   for si, idxs in enumerate(shards):
     got = results[f'graph_{si}']
     for k, i in enumerate(idxs):
       lit, ctx, ji, m_in, m_out, desc, mb = cases[i]
-      jr1, jr2, jhyp, jconcl, jwo, jsem, jplan = vlib.unflat(got[k])
+      jr1, jr2, jhyp, jconcl, jwo, jsem, jplan, jlastn, jlastok, jwhy = vlib.unflat(got[k])
+      for w in jwhy:
+        last_why[WHY.get(int(w), str(w))] += 1
+      last_lists += int(jlastn)
+      last_ok += int(jlastok)
       plan_runs += int(bool(jplan))
       hyp_checked += 1
       float_runs += int(bool(jwo))
@@ -573,6 +603,9 @@ def main():
       'interface': 'I+T+E', 'evaluations': len(cases), 'theorem_hypotheses_checked_on_inputs': hyp_checked,
       'float_compute_runs_checked_interleaving': float_runs,
       'float_compute_runs_meeting_whole_run_theorem_hypotheses': plan_runs,
+      'instruction_lists_ending_with_an_insertion': last_lists,
+      'of_those_meeting_last_instruction_theorem_hypotheses': last_ok,
+      'first_failing_hypothesis_of_the_others': {k: v for k, v in last_why.items() if k != 'all hold'},
       'distinct_nontrivial': len(nontrivial),
       'n_mismatches': len(mism), 'mismatches': mism[:10],
       'oracle_violations': dedup(viol), 'distribution': dict(dist),
